@@ -32,6 +32,7 @@ REAL_VS_STUB = {
     "stub": ["the user (flags)"],
 }
 CATS = ["create", "fix", "trim", "update"]
+MIN_BUDGET = 40
 
 
 def generate(seed, tier="quick"):
@@ -97,7 +98,7 @@ def execute(case, ctx):
         c1 = set(r1.get("categories") or []) - {"update"}
         c2 = set(drivers.report_categories(r2.get("out", ""))) - {"update"}
         if c1 != c2:
-            viol("same-categories", f"run_inline-reports:{'+'.join(sorted(c1))}:plugin-reports:{'+'.join(sorted(c2))}", f"step {si} flags={flags}\n{files[prog['files'][0]['name']][:900]}")
+            viol("same-categories", "run_inline-and-plugin-report-different-categories", f"step {si} flags={flags}: run_inline {sorted(c1)}, plugin {sorted(c2)}\n{files[prog['files'][0]['name']][:900]}")
         cur = dict(cur)
         for k, v in n2.items():
             if k.startswith("test_"):
